@@ -276,7 +276,11 @@ class Rig(object):
 
             def write(stream, kmip_version=enums.KMIPVersion.KMIP_1_0):
                 before = len(stream)
-                r = orig_write(stream, kmip_version=kmip_version)
+                try:
+                    r = orig_write(stream, kmip_version=kmip_version)
+                except BaseException as e:
+                    rec["write_raised"] = type(e).__name__
+                    raise
                 rec["len"] = len(stream) - before
                 return r
             response.write = write
@@ -350,7 +354,10 @@ class Rig(object):
                 cur["escaped"] = "ConnectionClosed"
                 raise
             except BaseException as e:
-                cur["escaped"] = type(e).__name__
+                import traceback
+                fr = [f for f in traceback.extract_tb(e.__traceback__) if "/kmip/" in f.filename]
+                site = "%s:%s" % (os.path.basename(fr[-1].filename), fr[-1].name) if fr else "?"
+                cur["escaped"] = "%s@%s" % (type(e).__name__, site)
                 cur["escaped_msg"] = str(e)[:300]
                 raise
             finally:
@@ -373,7 +380,8 @@ class Rig(object):
         finally:
             slugs_mod.requests = saved_requests
         return {"iterations": its, "out": list(conn.out), "run_escaped": escaped, "closed": conn.closed,
-                "recv_sizes": conn.recv_sizes, "max_response_size": sess._max_response_size,
+                "recv_sizes": conn.recv_sizes, "leftover": sum(1 + len(e or b"") for e in conn.events),
+                "max_response_size": sess._max_response_size,
                 "max_buffer_size": sess._max_buffer_size}
 
     def receive_bytes(self, size, events):
